@@ -359,8 +359,24 @@ void run_relay_world(const Plan& p, Ctx& ctx, bool c26) {
         }
     }
 
-    // quiesce: let everything in flight arrive
-    sk::sleep_ns(3 * kSec);
+    // quiesce: let everything in flight arrive. With socket buffers down to one byte and per-segment latency a burst can
+    // take many simulated seconds to cross two hops, so wait until no client has received anything new (and seen no new
+    // EOF) for five seconds in a row instead of a fixed time (bounded by 900 s).
+    {
+        auto progress = [&] {
+            std::uint64_t sum = 0;
+            for (auto& c : cl) if (c->io) { sum += c->io->rx.size() * 1000003ull; for (auto& ch : c->io->rx) sum += ch.bytes.size(); if (c->io->eof_at >= 0) sum += 7; }
+            for (auto& inst : finished) if (inst.io) { sum += inst.io->rx.size() * 1000003ull; for (auto& ch : inst.io->rx) sum += ch.bytes.size(); if (inst.io->eof_at >= 0) sum += 7; }
+            return sum;
+        };
+        std::uint64_t last = progress();
+        int quiet = 0;
+        for (int waited = 0; waited < 900 && quiet < 5; ++waited) {
+            sk::sleep_ns(kSec);
+            const std::uint64_t now = progress();
+            if (now == last) ++quiet; else { quiet = 0; last = now; }
+        }
+    }
 
     if (!c26) {
         // ---------------- C25 trace oracle over every connection instance
